@@ -586,9 +586,10 @@ impl<'ccx, 'tcx: 'ccx> TyGenContext<'ccx, 'tcx, '_> {
             Type::Opaque(..) => format!("{cpp_name}.AsFFI()").into(),
             Type::Struct(..) => format!("{cpp_name}.AsFFI()").into(),
             Type::Enum(..) => format!("{cpp_name}.AsFFI()").into(),
-            Type::Slice(Slice::Strs(..)) => format!(
+            Type::Slice(Slice::Strs(encoding)) => format!(
                 // Layout of DiplomatStringView and std::string_view are guaranteed to be identical, otherwise this would be terrible
-                "{{reinterpret_cast<const diplomat::capi::DiplomatStringView*>({cpp_name}.data()), {cpp_name}.size()}}"
+                "{{reinterpret_cast<const {}*>({cpp_name}.data()), {cpp_name}.size()}}",
+                self.c.formatter.fmt_str_view_name(encoding)
             ).into(),
             Type::Slice(..) => format!("{{{cpp_name}.data(), {cpp_name}.size()}}").into(),
             Type::DiplomatOption(ref inner) => {
